@@ -10,7 +10,7 @@ use serde_json::json;
 
 const KINDS: [&str; 7] = ["struct", "unit-struct", "newtype", "unit-enum", "alg-enum", "alias", "const"];
 const MODS: [&[&str]; 6] = [&[], &["a"], &["a", "b"], &["fn:handler"], &["a", "fn:setup"], &["const:"]];
-const SKIPS: [Skip; 3] = [Skip::No, Skip::Serde, Skip::Typeshare];
+const SKIPS: [Skip; 5] = [Skip::No, Skip::Serde, Skip::Typeshare, Skip::SerializingOnly, Skip::DeserializingOnly];
 
 fn make_item(i: usize, kind: &str) -> Item {
     let n = format!("Item{i}");
@@ -274,7 +274,7 @@ pub fn check_members(c: &MembersCase, choices: &[u32], acc: &mut Acc) {
     let file = members_program(c);
     let cfg = Cfg::plain();
     let expected: Vec<String> = (0..3)
-        .filter(|i| c.skips[*i] == Skip::No)
+        .filter(|i| !c.skips[*i].skipped())
         .map(|i| {
             if c.renamed {
                 format!("rn{i}")
@@ -286,7 +286,7 @@ pub fn check_members(c: &MembersCase, choices: &[u32], acc: &mut Acc) {
         })
         .collect();
     acc.runs += 1;
-    let pat: String = c.skips.iter().map(|s| match s { Skip::No => 'k', Skip::Serde => 's', Skip::Typeshare => 't' }).collect();
+    let pat: String = c.skips.iter().map(|s| match s { Skip::No => 'k', Skip::Serde => 's', Skip::Typeshare => 't', Skip::SerializingOnly => 'S', Skip::DeserializingOnly => 'D' }).collect();
     let res = refmodel::run_single(&file, c.lang, &cfg);
     let ok = match res {
         Ok(ok) => ok,
